@@ -23,7 +23,9 @@ class Facts:
             with open(os.path.join(facts_dir, fn)) as f:
                 lines = f.readlines()
             lines = self._canonical_paths(lines)
+            lines = self._canonical_items(lines)
             lines = self._canonical_fields(lines)
+            lines = self._canonical_variants(lines)
             lines = self._canonical_fns(lines)
             if True:
                 for line in lines:
@@ -51,6 +53,8 @@ class Facts:
             self.renamed_fields = {}
         if not hasattr(self, "renamed_fns"):
             self.renamed_fns = {}
+        if not hasattr(self, "renamed_variants"):
+            self.renamed_variants = {}
         self.removed_helpers = {}   # helpers inlined into all their callers by normalise(): not bodies of their own any more
 
     def _canonical_paths(self, lines):
@@ -101,6 +105,141 @@ class Facts:
             out.append(line)
         return out
 
+    def _canonical_items(self, lines):
+        """A type or trait that was only renamed keeps its baseline path: within one module, a type (trait) that is not in the
+        baseline and a baseline type (trait) that no longer exists are the same item when their declarations agree - same kind,
+        same variants, same field names and types (same method names and signatures), the item's own name aside - and the match is
+        unique. The new path is rewritten to the baseline one in every fact."""
+        import re
+        here = os.path.dirname(os.path.abspath(__file__))
+        bf = os.path.join(here, "baseline_fields.json")
+        bs = os.path.join(here, "baseline_sigs.json")
+        if not (os.path.exists(bf) and os.path.exists(bs)):
+            return lines
+        base = json.load(open(bf))
+        sigs = json.load(open(bs))
+        cur_adts = {}
+        cur_traits = {}
+        for line in lines:
+            if '"k":"adt"' in line[:20]:
+                r = json.loads(line)
+                cur_adts[r["path"]] = r
+            elif '"k":"trait"' in line[:22]:
+                r = json.loads(line)
+                cur_traits[r["path"]] = r
+
+        def modof(p_):
+            return p_.rsplit("::", 1)[0] if "::" in p_ else ""
+
+        def shape_adt(path, kind, variants):
+            nm = path.rsplit("::", 1)[-1]
+            out = [kind]
+            for v in variants:
+                vn = "<self>" if v["name"] == nm else v["name"]
+                out.append((vn, tuple((f[0], re.sub(r"(?<![\w:])" + re.escape(path) + r"(?![\w])", "<self>", f[1])) for f in v["fields"])))
+            return tuple(out)
+        mapping = {}
+        gone = [p_ for p_ in base if p_ not in cur_adts and "::" in p_]
+        came = [p_ for p_ in cur_adts if p_ not in base and "::" in p_]
+        for c in came:
+            r = cur_adts[c]
+            sc = shape_adt(c, r.get("kind"), [{"name": v["name"], "fields": [(f["name"], f["ty"]) for f in v["fields"]]} for v in r["variants"]])
+            cands = [g for g in gone if modof(g) == modof(c) and shape_adt(g, base[g].get("kind"), base[g]["variants"]) == sc]
+            others = [c2 for c2 in came if c2 != c and modof(c2) == modof(c) and
+                      shape_adt(c2, cur_adts[c2].get("kind"), [{"name": v["name"], "fields": [(f["name"], f["ty"]) for f in v["fields"]]} for v in cur_adts[c2]["variants"]]) == sc]
+            if len(cands) == 1 and not others and (len(sc) > 1 and any(v[1] for v in sc[1:]) or len(sc) > 2):
+                mapping[c] = cands[0]
+        tb = {k[6:]: v for k, v in sigs.items() if k.startswith("trait ")}
+        tgone = [p_ for p_ in tb if p_ not in cur_traits]
+        tcame = [p_ for p_ in cur_traits if p_ not in tb and "::" in p_]
+        for c in tcame:
+            def selfsub(x, p_):
+                return re.sub(r"(?<![\w:])" + re.escape(p_) + r"(?![\w])", "<self>", x or "")
+            items = {it["name"]: [selfsub(x, c) for x in list(it["inputs"]) + [it.get("output") or ""]] for it in cur_traits[c]["items"] if it.get("inputs") is not None}
+            cands = []
+            for g in tgone:
+                if modof(g) != modof(c):
+                    continue
+                bi = {n: [selfsub(x, g) for x in sg] for n, sg in tb[g]["names"].items()}
+                if bi == items and items:
+                    cands.append(g)
+            if len(cands) == 1:
+                mapping[c] = cands[0]
+        if not mapping:
+            return lines
+        self.moved.update(mapping)
+        pats = [(re.compile(r"(?<![\w:])" + re.escape(a) + r"(?![\w])"), b_) for a, b_ in sorted(mapping.items(), key=lambda x: -len(x[0]))]
+        names = {a.rsplit("::", 1)[-1]: b_.rsplit("::", 1)[-1] for a, b_ in mapping.items() if a in cur_adts and cur_adts[a].get("kind") == "struct"}
+        out = []
+        for line in lines:
+            for rx, b_ in pats:
+                line = rx.sub(b_, line)
+            for nn, on in names.items():
+                if '"' + nn + '"' in line:
+                    line = line.replace('"variant":"%s"' % nn, '"variant":"%s"' % on)
+                    if '"k":"adt"' in line[:20]:
+                        line = line.replace('"name":"%s"' % nn, '"name":"%s"' % on)
+            out.append(line)
+        return out
+
+    def _canonical_variants(self, lines):
+        """An enum variant that was only renamed keeps its baseline name: in an enum with the baseline's number of variants, the
+        variants whose names disappeared / appeared are paired by position when their payloads agree."""
+        import re
+        here = os.path.dirname(os.path.abspath(__file__))
+        bp = os.path.join(here, "baseline_fields.json")
+        if not os.path.exists(bp):
+            return lines
+        base = json.load(open(bp))
+        base_variant_names = {v["name"] for a in base.values() for v in a["variants"]}
+        mapping = {}
+        for line in lines:
+            if '"k":"adt"' not in line[:20]:
+                continue
+            r = json.loads(line)
+            b = base.get(r["path"])
+            if not b or r.get("kind") != "enum" or len(b["variants"]) != len(r["variants"]):
+                continue
+            bn = [v["name"] for v in b["variants"]]
+            cn = [v["name"] for v in r["variants"]]
+            ok = True
+            pairs = []
+            for bv, cv in zip(b["variants"], r["variants"]):
+                if bv["name"] == cv["name"]:
+                    continue
+                if bv["name"] in cn or cv["name"] in bn or [list(f) for f in bv["fields"]] != [[f["name"], f["ty"]] for f in cv["fields"]]:
+                    ok = False
+                    break
+                pairs.append((cv["name"], bv["name"]))
+            if ok:
+                for n_, o_ in pairs:
+                    mapping[(r["path"], n_)] = o_
+        if not mapping:
+            return lines
+        self.renamed_variants = {"%s::%s" % k: v for k, v in mapping.items()}
+        GA = r'(?:::<(?:[^"<>]|<(?:[^"<>]|<(?:[^"<>]|<[^"<>]*>)*>)*>)*>)?'
+        novel = {}
+        for (adt, n_), o_ in mapping.items():
+            if n_ not in base_variant_names:
+                novel.setdefault(n_, set()).add(o_)
+        novel = {n_: next(iter(o_)) for n_, o_ in novel.items() if len(o_) == 1}
+        pats = [(re.compile(r'(?<![\w:])(' + re.escape(adt) + GA + r'::)' + re.escape(n_) + r'(?![\w])'), o_, n_, adt) for (adt, n_), o_ in mapping.items()]
+        out = []
+        for line in lines:
+            for rx, o_, n_, adt in pats:
+                if n_ not in line:
+                    continue
+                line = rx.sub(lambda m, o_=o_: m.group(1) + o_, line)
+                line = line.replace('"adt":"%s","variant":"%s"' % (adt, n_), '"adt":"%s","variant":"%s"' % (adt, o_))
+                if '"k":"adt"' in line[:20] and json.dumps(adt) in line[:200]:
+                    line = line.replace('"name":"%s"' % n_, '"name":"%s"' % o_)
+            for n_, o_ in novel.items():
+                if '"' + n_ + '"' in line:
+                    for k_ in ("d", "name", "variant"):
+                        line = line.replace('"%s":"%s"' % (k_, n_), '"%s":"%s"' % (k_, o_))
+            out.append(line)
+        return out
+
     def _canonical_fields(self, lines):
         """A field that was only renamed keeps its baseline name: for a struct/variant that exists in the baseline with the same
         number of fields, the names that disappeared and the names that appeared are paired in declaration order when their types
@@ -113,7 +252,7 @@ class Facts:
         if not os.path.exists(bp):
             return lines
         base = json.load(open(bp))
-        all_base_names = {n for vs in base.values() for fl in vs.values() for n, _ in fl}
+        all_base_names = {n for a in base.values() for v in a["variants"] for n, _ in v["fields"]}
         mapping = {}     # (adt, new) -> old
         for line in lines:
             if '"k":"adt"' not in line[:20]:
@@ -122,6 +261,7 @@ class Facts:
             bv = base.get(r["path"])
             if not bv:
                 continue
+            bv = {v["name"]: v["fields"] for v in bv["variants"]}
             for v in r["variants"]:
                 bf = bv.get(v["name"])
                 if bf is None or len(bf) != len(v["fields"]):
